@@ -101,11 +101,11 @@ Definition bump (s : state) : state :=
   mkS (clock s) (prec s) (seq s + 1) (actors s) (acts s) (log s) (batch s + 1) (amb s) (race s) (stuck s).
 
 Fixpoint upd_actor (p : Z) (f : actor -> actor) (l : list actor) : list actor :=
-  match l with [] => [] | a :: r => (if a_pid a =? p then f a else a) :: upd_actor p f r end.
+  match l with [] => [] | a :: r => if a_pid a =? p then f a :: r else a :: upd_actor p f r end.
 Fixpoint get_actor (p : Z) (l : list actor) : option actor :=
   match l with [] => None | a :: r => if a_pid a =? p then Some a else get_actor p r end.
 Fixpoint upd_act (h : Z) (f : act -> act) (l : list act) : list act :=
-  match l with [] => [] | x :: r => (if h_id x =? h then f x else x) :: upd_act h f r end.
+  match l with [] => [] | x :: r => if h_id x =? h then f x :: r else x :: upd_act h f r end.
 Fixpoint get_act (h : Z) (l : list act) : option act :=
   match l with [] => None | x :: r => if h_id x =? h then Some x else get_act h r end.
 Definition mod_actor (s : state) (p : Z) (f : actor -> actor) : state := set_actors s (upd_actor p f (actors s)).
@@ -118,7 +118,13 @@ Definition runnable_pos (a : actor) : option Z :=
   match a_st a with SStart n | SReady _ n | SDying _ n => Some n | _ => None end.
 
 (* simcall_answer(): the actor is appended to actors_to_run_ *)
+Definition is_sleep (o : op) : bool := match o with OSleep _ => true | _ => false end.
+(* ghost: a sleeping actor that is woken by anything else than the end of its own sleep action counts as disturbed
+   (this never happens: sleeps end through [end_sleep] only) *)
+Definition taint (a : actor) : actor := set_susp a (a_susp a) (a_dist a || is_sleep (a_cur a)).
 Definition answer (s : state) (p r : Z) : state :=
+  bump (mod_actor s p (fun a => set_st (taint a) (SReady r (seq s)))).
+Definition wake (s : state) (p r : Z) : state :=      (* SleepImpl::finish answering its own simcall *)
   bump (mod_actor s p (fun a => set_st a (SReady r (seq s)))).
 
 (* ---------------------------------------------------------------------------------------------- activities *)
@@ -156,7 +162,7 @@ Fixpoint run_onexit (p : Z) (failed : bool) (cbs : list xcb) (s : state) : state
   | XJoin j :: r =>
     run_onexit p failed r
       (mod_actor s j (fun a => match a_st a with
-                               | SBlocked (BJoin tg _) => if tg =? p then set_st a (SBlocked BFin) else a
+                               | SBlocked (BJoin tg _) => if tg =? p then set_st (taint a) (SBlocked BFin) else a
                                | _ => a end))
   end.
 
@@ -335,7 +341,7 @@ Definition end_sleep (s : state) (p : Z) : state :=
   match get_actor p (actors s) with
   | Some a => match a_st a with
               | SBlocked BFin => if a_susp a then mod_actor s p (fun a => set_susp (set_st a (SParked 0)) true true)
-                                 else answer s p 0
+                                 else wake s p 0
               | _ => s end
   | None => s
   end.
@@ -384,14 +390,16 @@ Definition due (s : state) (m dt : Z) : bool := Z.abs (dt - m) <? prec s.   (* d
 Definition pop_actor (s : state) (m : Z) (a : actor) : actor :=
   match a_st a with
   | SBlocked (BSleep dt) => if due s m dt then set_st a (SBlocked BFin) else a
-  | SBlocked (BJoin _ (Some dt)) => if due s m dt then set_st a (SBlocked BFin) else a
+  | SBlocked (BJoin _ (Some dt)) => if due s m dt then set_st (taint a) (SBlocked BFin) else a
   | _ => a
   end.
 Definition pop_act (s : state) (m : Z) (x : act) : act :=
   match h_st x with ARun dt => if due s m dt then set_hst x (AFin m) (h_dist x) else x | _ => x end.
-Definition pending (s : state) : bool :=
-  existsb (fun a => match a_st a with SBlocked BFin => true | _ => false end) (actors s)
-  || existsb (fun x => match h_st x with AFin _ => true | _ => false end) (acts s).
+(* between two scheduling rounds every actor is blocked on something, parked or dead, and no ended action is unhandled *)
+Definition quiet_actor (a : actor) : bool :=
+  match a_st a with SBlocked BFin => false | SBlocked _ | SParked _ | SDead => true | _ => false end.
+Definition quiet_act (x : act) : bool := match h_st x with AFin _ => false | _ => true end.
+Definition quiescent (s : state) : bool := forallb quiet_actor (actors s) && forallb quiet_act (acts s).
 
 Definition fire_timer (s : state) (p : Z) : state :=
   match get_actor p (actors s) with
@@ -426,10 +434,7 @@ Definition fire_timers (s : state) : state :=
 (* solve() + update_actions_state, then Timer::execute_all, then handle_ended_actions.
    None = the simulation is over. *)
 Definition advance (s : state) : option state :=
-  match to_run s with
-  | _ :: _ => Some (set_stuck s)
-  | [] =>
-    if pending s then Some (set_stuck s) else
+  if negb (quiescent s) then Some (set_stuck s) else
     match next_date s with
     | None => if existsb live (actors s) then Some (fold_left do_kill (pids s) s)   (* deadlock: kill everybody *)
               else None
@@ -442,8 +447,7 @@ Definition advance (s : state) : option state :=
         let s3 := reset_batch s2 in
         let s4 := close_batch (handle_ended (fire_timers s3)) in
         Some (if 2 <=? npop then mkS (clock s4) (prec s4) (seq s4) (actors s4) (acts s4) (log s4) (batch s4) true (race s4) (stuck s4) else s4)
-    end
-  end.
+    end.
 
 Definition halted (s : state) : bool := race s || stuck s.
 
